@@ -172,6 +172,9 @@ def main() -> int:
         log(f"[{prop}] harness errors: {harness_errors}")
         rc = 2
     wall = time.time() - t0
+    if a.skip_proofs:
+        log(f"[{prop}] --skip-proofs: evidence not written")
+        return rc
     common.write_evidence(prop, a.tier, seed, proof, channels, wall, len(violations),
                           getattr(mod, "TRUSTED", []), getattr(mod, "ASSUMPTIONS", []),
                           extra={"known_findings_replayed": [f["id"] for f in open_findings],
